@@ -14,6 +14,7 @@ fn spec() -> CtxSpec {
             ("l".into(), Value::List(Arc::new(vec![Value::Int(1), Value::Int(2), Value::Int(3)]))),
             ("s".into(), Value::String(Arc::new("abc".into()))),
             ("i".into(), Value::Int(4)),
+            ("mm".into(), nested_map()),
         ],
         funs: vec![
             HostFn { kind: "hv2b", name: "tag".into() },   // tag(id, x) = x, logged
@@ -33,8 +34,26 @@ fn spec() -> CtxSpec {
             HostFn { kind: "hv3", name: "_f3".into() },
             HostFn { kind: "hthis_v", name: "_m1".into() },
             HostFn { kind: "hv_this", name: "r1".into() },
+            // ... and names that end like them, or look like nothing but underscores
+            HostFn { kind: "hv1", name: "f1_".into() },
+            HostFn { kind: "hv2", name: "f2_".into() },
+            HostFn { kind: "hv1", name: "_g1_".into() },
+            HostFn { kind: "hv1", name: "not_".into() },
+            HostFn { kind: "hv2", name: "in_".into() },
+            HostFn { kind: "hthis_v", name: "m1_".into() },
+            HostFn { kind: "hv1", name: "__".into() },
         ],
     }
+}
+
+/// {'a': {'b': {'c': 1}}, 'k': 2}
+fn nested_map() -> Value {
+    use cel_interpreter::objects::{Key, Map};
+    use std::collections::HashMap;
+    let ks = |s: &str| Key::String(Arc::new(s.to_string()));
+    let c = Value::Map(Map { map: Arc::new(HashMap::from([(ks("c"), Value::Int(1))])) });
+    let b = Value::Map(Map { map: Arc::new(HashMap::from([(ks("b"), c)])) });
+    Value::Map(Map { map: Arc::new(HashMap::from([(ks("a"), b), (ks("k"), Value::Int(2))])) })
 }
 
 struct G<'a> {
@@ -64,7 +83,24 @@ impl<'a> G<'a> {
             return self.leaf();
         }
         let d = depth - 1;
-        let e = match self.rng.below(19) {
+        let e = match self.rng.below(22) {
+            19 => {
+                let f = *self.rng.pick(&["f1_", "_g1_", "not_", "__"]);
+                format!("{}({})", f, self.expr(d))
+            }
+            20 => {
+                if self.rng.chance(1, 2) {
+                    format!("{}({}, {})", *self.rng.pick(&["f2_", "in_"]), self.expr(d), self.expr(d))
+                } else {
+                    format!("({}).m1_({})", self.expr(d), self.expr(d))
+                }
+            }
+            21 => {
+                // field selections and presence tests over a receiver that is itself logged
+                let path = *self.rng.pick(&[".a", ".a.b", ".a.b.c", ".k", ".a.x", ".a.b.x", ".a.b.c.d", ".zz.y"]);
+                let recv = self.tag("mm".to_string());
+                if self.rng.chance(1, 2) { format!("has({}{})", recv, path) } else { format!("{}{}", recv, path) }
+            }
             16 => {
                 let f = *self.rng.pick(&["_f1", "_f2", "_f3"]);
                 let n = f.as_bytes()[2] - b'0';
@@ -122,7 +158,11 @@ pub fn run(em: &mut Emit, thorough: bool, seed: u64) {
               "va(tag(1, 1), boom(tag(2, 2)), tag(3, 3))", "z0(tag(1, 1))", "[tag(1, 1), tag(2, 2)][tag(3, 0)]",
               "{tag(1, 'k'): tag(2, 1)}[tag(3, 'k')]", "tag(1, l).map(x, tag(2, x))", "tag(1, l).filter(x, tag(2, x) > tag(3, 1))",
               "_f2(tag(1, 1), tag(2, 2))", "_f1(tag(1, 1))", "_f3(tag(1, 1), tag(2, 2), tag(3, 3))", "tag(1, 1)._m1(tag(2, 2))",
-              "_f2(_f2(_f2(tag(1, 1), tag(2, 2)), tag(3, 3)), tag(4, 4))", "r1(tag(1, 1), tag(2, 2))", "tag(1, 1).r1(tag(2, 2))"] {
+              "_f2(_f2(_f2(tag(1, 1), tag(2, 2)), tag(3, 3)), tag(4, 4))", "r1(tag(1, 1), tag(2, 2))", "tag(1, 1).r1(tag(2, 2))",
+              "f1_(tag(1, 1))", "not_(tag(1, 1))", "__(tag(1, 1))", "_g1_(_g1_(_g1_(tag(1, 1))))", "f2_(tag(1, 1), tag(2, 2))",
+              "in_(tag(1, 1), tag(2, 2))", "tag(1, 1).m1_(tag(2, 2))", "tag(1, 1).f1_()", "f1_(f1_(f1_(f1_(f1_(tag(1, 1))))))",
+              "has(tag(1, mm).a)", "has(tag(1, mm).a.b)", "has(tag(1, mm).a.b.c)", "has(tag(1, mm).a.x.y)", "tag(1, mm).a.b.c",
+              "l.map(x, has(tag(x, mm).a.b.c))", "has(tag(1, mm).a.b.c.d)", "has({'p': tag(1, mm)}.p.a.b)"] {
         emit_program(em, p, &sp, "nt=1;kind=corpus");
     }
     // nested chains: the log length is the depth (it was 2^depth)
